@@ -77,6 +77,17 @@ Definition run (fin : bool) : list ev -> state -> state :=
   fix go (l : list ev) (s : state) : state :=
     match l with [] => s | x :: r => go r (run_ev fin x s) end.
 
+(* Threads.  TracerLocalState is thread-local: every thread that executes a test case has its own
+   switch and trace (a fresh thread starts with st_fresh).  A thread abandoned after a timeout may
+   sit inside a bracket for ever (its own switch is off) and leaves it at any later time. *)
+Definition st_fresh : state := {| enabled := true; lines := []; preds := []; instrs := [] |}.
+Definition threads := Z -> state.
+Definition run_in (fin : bool) (t : Z) (evs : list ev) (T : threads) : threads :=
+  fun t' => if Z.eqb t' t then run fin evs (T t) else T t'.
+(* a schedule: which thread performs which events next, in any interleaving *)
+Definition run_schedule (fin : bool) (sched : list (Z * list ev)) (T : threads) : threads :=
+  fold_left (fun T' step => run_in fin (fst step) (snd step) T') sched T.
+
 (* TestCaseExecutor: _before_statement_execution; the statement; _after_statement_execution *)
 Definition statement (before body after : list ev) : list ev :=
   DisableBlock before false :: body ++ [DisableBlock after false].
